@@ -410,6 +410,24 @@ for _p in ("C01", "C02", "C05"):
 # the two places where the crate computes something differently without std: the size estimate of the radix parser, the roots' guess
 for _p in ("C06", "C11"):
     PROPS[_p]["clauses"].append(_cfg_values)
+# what the clauses added in the eighth seeding round decide, per property (appended to the level texts above)
+_R8_TEXT = {
+    "C01": " Also (round 8): a digit loop that threads a carry or borrow leaves before the last digit only on a condition computed from every carry it threads that no later loop keeps propagating; debug-only code in the add/sub functions has no effect on state.",
+    "C02": " Also (round 8): the carry loops of mac_digit/scalar_mul and of the add/sub helpers leave early only on every pending carry; debug-only code in the multiplication functions has no effect on state.",
+    "C05": " Also (round 8): debug-only code in the modular functions has no effect on state (a call folded into debug_assert! is skipped in release builds).",
+    "C06": " Also (round 8): in the radix parser a value computed differently with and without std (the size estimate) reaches only capacity requests, never a branch that changes the digits.",
+    "C07": " Also (round 8): the rounding comparison of >> may be made in the amount's own type - a failed narrowing of the trailing-zero count then means no rounding (decided for every amount type); the two's-complement carry loops leave early only on every pending carry.",
+    "C10": " Also (round 8): carry-loop exits, the rescaling balance of long division and the rounding comparison of >> as under C01/C03/C07, for every operator form that reaches them.",
+    "C11": " Also (round 8): a std/no_std-dependent value in the root functions reaches only the Newton initial guess.",
+    "C13": " Also (round 8): no overflow-checked step directly on a digit element, and no effect inside debug-only code, in the functions the gcd/lcm/multiple-of helpers reach.",
+    "C16": " Also (round 8): no new overflow-checked negation of a signed primitive (a panic only overflow-checking builds have); a call under a configuration-dependent branch that takes `&mut x` makes x configuration-dependent.",
+    "C17": " Also (round 8): no overflow-checked arithmetic directly on a deserialized integer that the visitor never compares with anything (malformed input must give Err in every build, not a debug-only panic).",
+    "C03": " Also (round 8): at every call of div_rem_core the left shifts applied to the dividend equal the right shifts applied to the remainder (inside the core plus after the call, through a private wrapper if there is one), by the same amount; debug-only code in the division functions has no effect on state.",
+    "C09": "",
+    "C19": " Also (round 8): set_zero/set_one and the other identity helpers leave canonical values (R1: no cut of the digit vector at a constant length, no unnormalised escape).",
+}
+for _p, _t in _R8_TEXT.items():
+    PROPS[_p]["level_text"] = PROPS[_p]["level_text"] + _t
 
 
 portable(
